@@ -242,6 +242,24 @@ class C19Run(qsrun.QsRun):
         nserve.rpcclient = self._saved_proxy
         nserve.request = self._saved_request
 
+    def step(self, st):
+        if st[0] == "restart":
+            # the queue server goes away under the application calls that are talking to it:
+            # their connections break, the calls end with an error (and are not judged)
+            lost = {"error": "connection to the queue server lost (restart)"}
+            for pid, call in self.calls.items():
+                if call["finished"]:
+                    continue
+                call["interrupted"] = True
+                p = self.parked.pop(pid, None)
+                if p is not None:
+                    p[2].set(lost)
+                sock = self.sim.conns.get(pid)
+                if sock is not None and sock.reply_cb is not None:
+                    cb, sock.reply_cb = sock.reply_cb, None
+                    cb(lost)
+        return qsrun.QsRun.step(self, st)
+
     def step_extra(self, st):
         sim, model = self.sim, self.model
         op = st[0]
@@ -291,6 +309,9 @@ class C19Run(qsrun.QsRun):
             if call["finished"] and not call["checked"]:
                 call["checked"] = True
                 self.sim.disconnect(pid)
+                if call.get("interrupted"):
+                    self.poll_stats["interrupted-by-restart"] = self.poll_stats.get("interrupted-by-restart", 0) + 1
+                    continue
                 if call["kind"] == "status":
                     self.check_status(pid, call)
                 else:
@@ -578,7 +599,7 @@ def draw_run(seed, prop, i, allow_restart=False):
     rng = rng_for(seed, prop, i)
     mode = "bounded" if rng.random() < 0.5 else "soak"
     faults = rng.random() >= 0.15
-    cfg = qsrun.draw_config(rng, mode, allow_restart=False, faults=faults)
+    cfg = qsrun.draw_config(rng, mode, allow_restart=True, faults=faults)
     cfg["channels"] = ["makezip", "render"]
     cfg["clients"] = ["c1"]
     cfg["cids"] = CIDS[: rng.randint(1, 2)]
